@@ -593,13 +593,13 @@ impl Property for C02 {
         let n = table().len() as u64 + NARY;
         match tier {
             Tier::Quick => n * 300,
-            Tier::Thorough => n * 20_000,
+            Tier::Thorough => n * 150_000,
         }
     }
     fn min_nontrivial(&self, tier: Tier) -> u64 {
         match tier {
             Tier::Quick => 10_000,
-            Tier::Thorough => 600_000,
+            Tier::Thorough => 4_000_000,
         }
     }
     fn rule(&self) -> &'static str {
